@@ -10,11 +10,40 @@ RULE = ('(a) scope trees: nested (until-)scopes (depth <= 3, <= 3 children each,
         '(b) random valid whole-API programs (no usage errors); non-trivial = a scope with at least 2 children was left')
 
 
+def late_spawn_ref(rng):
+    return late_spawn(rng)
+
+
 def nontrivial(impl):
     return sum(1 for e in impl['events'] if ':spawn:' in e) >= 2 and any(':sexit:' in e for e in impl['events'])
 
 
-SOURCES = [scopesuite.scope_tree, scopesuite.valid_scenario]
+SOURCES = [scopesuite.scope_tree, scopesuite.valid_scenario, scopesuite.scope_tree, scopesuite.valid_scenario, scopesuite.scope_tree, late_spawn_ref]
+
+
+def late_spawn(rng):
+    """children spawned during shutdown: somebody waits for the scope itself (`await scope`) - a volatile helper child, or an
+    activity outside - and spawns into it when the body has ended; the scope has no (or only volatile, or some) regular children at
+    that moment.  The late child is waited for as well, and volatile children are closed only after it has finished"""
+    from fractions import Fraction as F
+    body = []
+    n = 0
+    if rng.random() < 0.6:
+        body.append(['spawn', 0, n, None, None, True,
+                     ['prog', ['awaitscope', 0], ['spawn', 0, 10, None, None, False, ['prog', ['sleep', rng.choice([1, 3, 5])], ['log', 310]]], ['sleep', 50]]])
+        n += 1
+    if rng.random() < 0.4:
+        body.append(['spawn', 0, n, None, None, False, ['prog', ['sleep', rng.choice([F(1, 2), 2])], ['log', 300 + n]]])
+        n += 1
+    if rng.random() < 0.3:
+        body.append(['spawn', 0, n, None, None, True, ['prog', ['sleep', 30], ['log', 300 + n]]])
+        n += 1
+    body.append(['sleep', rng.choice([1, 2])])
+    main = ['prog', ['scope', 0, ['none']] + body, ['log', 50], ['sleep', 20], ['log', 60]]
+    outsider = ['prog', ['sleep', F(1, 2)], ['awaitscope', 0], ['spawn', 0, 11, None, None, rng.random() < 0.2,
+                                                                  ['prog', ['sleep', rng.choice([2, 4])], ['log', 311]]], ['log', 70]]
+    roots = [main] + ([outsider] if rng.random() < 0.6 else [])
+    return ['scenario', ['debug', 1], ['start', 0], ['flags', 1], ['locks', 0], ['roots'] + roots]
 
 
 def plain_children(rng):
